@@ -8,6 +8,7 @@
 
 #include <cmath>
 #include <map>
+#include <thread>
 
 #include "alloc_track.hpp"
 #include "arena.hpp"
@@ -307,7 +308,7 @@ std::vector<Sub> vh_subs() {
     Rng r((uint64_t)v[4]);
     std::vector<Spec> hist;
     std::vector<std::vector<uint8_t>> outs;
-    uint64_t repeats = 0, interesting = 0, fresh_checks = 0, fresh_modules = 0;
+    uint64_t repeats = 0, interesting = 0, fresh_checks = 0, fresh_modules = 0, other_thread_calls = 0;
     const unsigned csr0 = _mm_getcsr() & 0xFFC0u;
     std::map<int, int> fam;
     for (uint64_t t = 0; t < len; ++t) {
@@ -322,7 +323,20 @@ std::vector<Sub> vh_subs() {
         else if (sp.fn == M_NORM) sp.p1 = 1 + (uint32_t)r.below(62);
         else sp.p1 = prev.p1;
       }
-      std::vector<uint8_t> o = execute(sp, r.next(), (int)r.below(4), false);
+      // one call in eight is made by another (freshly created) thread: state that is shared between threads although the cache it
+      // belongs to is per thread shows up as a main-thread call that depends on what the other thread did in between
+      std::vector<uint8_t> o;
+      {
+        const uint64_t ps = r.next();
+        const int pf = (int)r.below(4);
+        if (r.below(8) == 0) {
+          std::thread th([&]() { o = execute(sp, ps, pf, false); });
+          th.join();
+          ++other_thread_calls;
+        } else {
+          o = execute(sp, ps, pf, false);
+        }
+      }
       if (o.size() == 1 && o[0] == 0xEE) return ctx.failf("call %llu %s wrote outside its buffers", (unsigned long long)t, spec_str(sp).c_str());
       {
         // hidden thread state: the floating-point control bits (rounding mode, FTZ, DAZ, exception masks) must be what they were
@@ -371,6 +385,7 @@ std::vector<Sub> vh_subs() {
     for (auto& kv : fam) ctx.cls(std::string("fn:") + FNAMES[kv.first]);
     if (interesting) ctx.cls("repeat_after_other_params");
     if (fresh_modules) ctx.cls("fresh-module == long-lived module (heap fill varied)");
+    if (other_thread_calls) ctx.cls("calls made by another thread");
     {
       uint64_t lo = 99, hi = 0;
       bool tiny = false;
